@@ -265,6 +265,78 @@ def rule_space(ctx):
     return res.finish(8)
 
 
+def _sv_normal_form(F, fn, body, elem_locals, depth=0):
+    """`|a| REL number * eps` as a canonical string: locals are followed to their initialisers, argument-less helper
+    functions of the crate are inlined, `cast(100.)` / `cast(100u8)` are the number 100; None when the predicate has
+    another shape (the caller falls back to comparing the text)"""
+    c = fn["crate"]
+    inits = {}
+    for y in walk(fn["body"]):
+        if y.get("k") == "LetStmt" and y.get("init") is not None and y["pat"].get("k") == "Bind":
+            inits[y["pat"]["local"]] = y["init"]
+    b = peel_refs(body)
+    while b.get("k") == "Block" and not b["stmts"] and b.get("e") is not None:
+        b = peel_refs(b["e"])
+    if b.get("k") != "Binary" or b["op"] not in (">", ">=", "<", "<="):
+        return None
+
+    def is_abs(e):
+        e = peel_refs(e)
+        return e.get("k") == "MethodCall" and e["name"] == "abs" and peel_refs(e["recv"]).get("local") in elem_locals
+    flip = {">": "<", "<": ">", ">=": "<=", "<=": ">="}
+    if is_abs(b["l"]):
+        op, thr = b["op"], b["r"]
+    elif is_abs(b["r"]):
+        op, thr = flip[b["op"]], b["l"]
+    else:
+        return None
+
+    def factors(e, fn_, inits_, d=0):
+        e = peel_refs(e)
+        if d > 6:
+            return None
+        k_ = e.get("k")
+        if k_ == "Path" and e.get("local") in inits_:
+            return factors(inits_[e["local"]], fn_, inits_, d + 1)
+        if k_ == "Binary" and e["op"] == "*":
+            a, b_ = factors(e["l"], fn_, inits_, d + 1), factors(e["r"], fn_, inits_, d + 1)
+            return None if a is None or b_ is None else a + b_
+        if k_ == "Lit":
+            try:
+                return [float(re.sub(r"(_?[fiu](8|16|32|64|128|size))$", "", str(e.get("v")).replace("_", "")))]
+            except ValueError:
+                return None
+        if k_ == "Call" and strip(e["f"]).get("k") == "Path":
+            d0 = fn_["crate"].dfn(strip(e["f"]).get("def")) or {}
+            nm = d0.get("name")
+            if nm == "epsilon" and not e["args"]:
+                return ["eps"]
+            if nm in ("cast", "from") and len(e["args"]) == 1:
+                return factors(e["args"][0], fn_, inits_, d + 1)
+            if nm == "one" and not e["args"]:
+                return [1.0]
+            if not e["args"] and d0.get("krate") == fn_["d"]["krate"]:
+                for g in F.all_fns():
+                    if g["d"]["krate"] == d0.get("krate") and g["d"]["path"] == d0.get("path") and g["d"]["name"] == nm and not g["params"]:
+                        gi = {}
+                        for y in walk(g["body"]):
+                            if y.get("k") == "LetStmt" and y.get("init") is not None and y["pat"].get("k") == "Bind":
+                                gi[y["pat"]["local"]] = y["init"]
+                        t = strip(g["body"])
+                        while t.get("k") == "Block" and t.get("e") is not None:
+                            t = strip(t["e"])
+                        return factors(t, g, gi, d + 1)
+        return None
+    fs = factors(thr, fn, inits)
+    if fs is None:
+        return None
+    num = 1.0
+    for x in fs:
+        if not isinstance(x, str):
+            num *= x
+    return "|a| %s %g*%s" % (op, num, "*".join(sorted(x for x in fs if isinstance(x, str))) or "1")
+
+
 def rule_sv(ctx):
     res = RuleResult("R-C13-sv", "the 'is support vector' predicate is the same expression in solve, weighted_sum and nsupport")
     F = ctx.facts()
@@ -284,11 +356,13 @@ def rule_sv(ctx):
                 if not any(x.get("k") == "MethodCall" and x["name"] == "abs" for x in walk(body)):
                     continue
                 ids = {b["local"]: "a" for p in clo["params"] for b in pat_bindings(p)}
-                s = r.e(body)
-                for p in clo["params"]:
-                    for b in pat_bindings(p):
-                        s = re.sub(r"\b%s\b" % re.escape(b["name"]), "a", s)
-                s = s.replace("*", "").replace("&", "")
+                s = _sv_normal_form(F, fn, body, set(ids))
+                if s is None:
+                    s = r.e(body)
+                    for p in clo["params"]:
+                        for b in pat_bindings(p):
+                            s = re.sub(r"\b%s\b" % re.escape(b["name"]), "a", s)
+                    s = s.replace("*", "").replace("&", "")
                 preds[fn_key(fn)] = (s, fn, n["ln"])
     for k_, (s, fn, ln) in sorted(preds.items()):
         res.instance("%s : %s" % (k_, s))
